@@ -5,7 +5,7 @@ CONSTANTS
   T = 10
   D = 1
   MaxEvents = 3
-  MaxFails = 1
+  MaxFails = 0
   Backoff = FALSE
   Closed = FALSE
   ObserveCb = TRUE
